@@ -2,6 +2,7 @@ from abc import ABC, abstractmethod
 import numpy as np
 from optiland.rays import RealRays
 from optiland.jones import JonesFresnel
+from optiland.materials import BaseMaterial
 
 
 class BaseCoating(ABC):
@@ -254,8 +255,8 @@ class BaseCoatingPolarized(BaseCoating, ABC):
         """
         return {
             'type': self.__class__.__name__,
-            'material_pre': self.material_pre,
-            'material_post': self.material_post
+            'material_pre': self.material_pre.to_dict(),
+            'material_post': self.material_post.to_dict()
         }
 
     @classmethod
@@ -269,7 +270,8 @@ class BaseCoatingPolarized(BaseCoating, ABC):
         Returns:
             BaseCoating: The coating created from the dictionary.
         """
-        return cls(data['material_pre'], data['material_post'])
+        return cls(BaseMaterial.from_dict(data['material_pre']),
+                   BaseMaterial.from_dict(data['material_post']))
 
 
 class FresnelCoating(BaseCoatingPolarized):
@@ -303,8 +305,8 @@ class FresnelCoating(BaseCoatingPolarized):
         """
         return {
             'type': self.__class__.__name__,
-            'material_pre': self.material_pre,
-            'material_post': self.material_post
+            'material_pre': self.material_pre.to_dict(),
+            'material_post': self.material_post.to_dict()
         }
 
     @classmethod
@@ -318,4 +320,5 @@ class FresnelCoating(BaseCoatingPolarized):
         Returns:
             BaseCoating: The coating created from the dictionary.
         """
-        return cls(data['material_pre'], data['material_post'])
+        return cls(BaseMaterial.from_dict(data['material_pre']),
+                   BaseMaterial.from_dict(data['material_post']))
